@@ -7,7 +7,7 @@ namespace Pysmi.Searcher
 inductive Ent
   | absent
   | dir                                     -- a directory of that name: never counts
-  | file (mtime : Int) (hdr : Option Int)   -- regular file; `hdr` = the word following a good magic number
+  | file (mtime : Int) (hdr : Option Int)   -- regular file; `hdr` = the timestamp inside a byte-code file with a usable header
   deriving DecidableEq, Repr
 
 inductive Ans | notFound | notModified | returns
@@ -24,7 +24,8 @@ def scanFiles (look : String → Ent) (mtime : Int) : List String → Ans
 def anyFile (exts : List String) (look : String → Ent) (mtime : Int) (rebuild : Bool) : Ans :=
   if rebuild then .returns else scanFiles look mtime exts
 
-/-- the byte-code loop of PyFileSearcher: a good magic number decides on the spot -/
+/-- the byte-code loop of PyFileSearcher: the first file with a good magic number and a timestamp (PEP 552: flags word
+0, then the timestamp) decides on the spot -/
 def scanPyc (look : String → Ent) (mtime : Int) : List String → Option Ans
   | [] => none
   | sfx :: rest =>
